@@ -7,7 +7,12 @@ run_values:       contract of every value-editing operation of odml.Property
     ensures   InvV(p)                                   -- on normal and exceptional exit
     on raise  snap(p) == old(snap(p))   and the exception is a ValueError when the refused thing is a value
     dtype=    post-state is either (all values converted, dtype == requested) or old state
-    normal form (when InvV holds): p.values = p.values keeps _values; get(set(v, dtype), dtype) == v
+    normal form (when InvV holds): p.values = p.values keeps _values; get(set(v, dtype), dtype) == v;
+              get(str(p.value_str(i)), dtype) == v
+    list-like input of k plain items: accepted => k values arrive (an item is converted or the input is refused,
+              never dropped)
+  Inputs: (1)/(2) one pool of values of every Python type crossed with all operation histories; (3) per dtype a pool
+  of near-miss texts / hostile objects and disguised valid texts, through every entry point that stores values.
   InvV(p): every v in p._values has the Python type of p._dtype; p._dtype is a canonical odML type name
            (None only while there are no values).
 
@@ -82,6 +87,8 @@ def value_problem(v, dtype):
         ok = type(v) is list and len(v) == n and all(type(x) is str for x in v)
     if ok:
         return None
+    if dtype in ('time', 'datetime') and type(v) in (dt.time, dt.datetime) and v.microsecond:
+        return '%r has a sub-second part: not a %s value in normal form' % (v, dtype)
     return '%r (%s) is not a %s value' % (v, type(v).__name__, dtype)
 
 
@@ -183,11 +190,15 @@ def fresh(label):
 
 
 def build_start(start):
+    with h.quiet():
+        return build_start_raw(start)
+
+
+def build_start_raw(start):
     dlabel, n = start
     d = DTYPE[dlabel]
     vals = list(NATIVE[dlabel][:n]) if n else None
-    with h.quiet():
-        return odml.Property(name='p', dtype=d, values=vals)
+    return odml.Property(name='p', dtype=d, values=vals)
 
 
 def all_value_ops():
@@ -299,15 +310,28 @@ def state_label(p):
                       min(len(p._values), 3))
 
 
+def _try(fn, *a, **kw):
+    """h.call without the silencing (for use inside one h.quiet() block)."""
+    try:
+        return 'ret', fn(*a, **kw)
+    except Exception as exc:       # noqa
+        return 'exc', exc
+
+
 def check_normal_form(p):
     """Only called when InvV(p) holds."""
+    with h.quiet():
+        return check_normal_form_raw(p)
+
+
+def check_normal_form_raw(p):
     out = []
     if p._dtype is None:
         return out
     c = canon_dtype(p._dtype)
     before = h._val(p._values)
     for v in list(p._values):
-        st, r = h.call(lambda: odml.dtypes.get(odml.dtypes.set(v, p._dtype), p._dtype))
+        st, r = _try(lambda: odml.dtypes.get(odml.dtypes.set(v, p._dtype), p._dtype))
         if st == 'exc':
             out.append(('normal-form-text-roundtrip', 'get(set(%r, %r)) raised %s: %s'
                         % (v, c, type(r).__name__, r)))
@@ -318,13 +342,13 @@ def check_normal_form(p):
     if not out:
         # the same through the public text accessor: str(p.value_str(i)) is the text of the i-th value
         for i, v in enumerate(list(p._values)):
-            st, t = h.call(p.value_str, i)
+            st, t = _try(p.value_str, i)
             if st == 'exc':
                 out.append(('normal-form-text-roundtrip', 'value_str(%d) of %r (%s) raised %s: %s'
                             % (i, v, c, type(t).__name__, str(t)[:80])))
                 break
             text = t if type(t) is str else str(t)
-            st, r = h.call(odml.dtypes.get, text, p._dtype)
+            st, r = _try(odml.dtypes.get, text, p._dtype)
             if st == 'exc':
                 out.append(('normal-form-text-roundtrip', 'value %r (%s) has the text %r, which is refused: %s: %s'
                             % (v, c, text, type(r).__name__, str(r)[:80])))
@@ -334,7 +358,7 @@ def check_normal_form(p):
                 break
     q = copy.copy(p)
     q._values = list(p._values)
-    st, r = h.call(setattr, q, 'values', q.values)
+    st, r = _try(setattr, q, 'values', q.values)
     if st == 'exc':
         out.append(('normal-form-self-assignment', 'p.values = p.values raised %s: %s on values %r dtype %r'
                     % (type(r).__name__, r, p._values, c)))
@@ -396,7 +420,7 @@ def evaluate_v(start, history, op):
 
 
 PRIORITY = ('dtype-valid', 'values-is-list', 'value-has-type-of-dtype', 'dtype-change-all-or-nothing',
-            'unchanged-on-raise', 'refusal-is-ValueError', 'clone-equal-values', 'normal-form-text-roundtrip',
+            'unchanged-on-raise', 'refusal-is-ValueError', 'every-input-item-stored-or-refused', 'clone-equal-values', 'normal-form-text-roundtrip',
             'normal-form-self-assignment')
 
 
@@ -428,7 +452,9 @@ class Agg(object):
     """One failure per class, with the number of cases and the shortest witness.
     Classes are first collected with all dimensions (clause, op, strict, dtype, argument type, exception);
     a dimension on which the failure does not depend is then dropped: strict when both settings fail,
-    dtype when (all but at most one) canonical dtypes fail, argument type when three or more kinds fail."""
+    dtype when (all but at most one) canonical dtypes fail, argument type when three or more kinds fail; for the
+    near-miss phase also the argument form (two or more), the entry point (three or more) and the near-miss label
+    (six or more: then the defect is not about one particular spelling)."""
 
     def __init__(self):
         self.d = {}
@@ -465,6 +491,7 @@ class Agg(object):
         self._merge('strict', lambda pres: {'True', 'False'} <= pres, 'either')
         self._merge('form', lambda pres: len(pres) >= 2, 'several-forms')
         self._merge('entry', lambda pres: len(pres) >= 3, 'several-entry-points')
+        self._merge('feature', lambda pres: len(pres) >= 6 and all(':' in f for f in pres), 'several-near-misses')
         self._merge('dtype', lambda pres: len([c for c in CANON if c in pres]) >= len(CANON) - 1, 'any')
         self._merge('value', lambda pres: len(pres) >= 3, 'several-kinds')
         for k in sorted(self.d, key=repr):
@@ -717,12 +744,12 @@ NEAR['3-tuple'] = [(l, v) for l, v in NEAR['2-tuple']] + [
 NM_DTYPES = list(CANON) + ['2-tuple', '3-tuple']
 
 
-def near_pool(dtype):
+def near_pool(dtype, quick=False):
     """[(feature label, value)] for a Property of the dtype: its own near misses and the disguises of its valid
-    texts.  The label is '<pool>:<what>' and is the stable class of the input."""
+    texts (quick: of the first valid text only).  The label is '<pool>:<what>' and is the stable class of the input."""
     pool = 'string' if dtype in STR_TYPES else 'n-tuple' if dtype.endswith('-tuple') else dtype
     out = [('%s:%s' % (pool, l), v) for l, v in NEAR[dtype]]
-    for i, t in enumerate(NATIVE_TEXT[dtype]):
+    for i, t in enumerate(NATIVE_TEXT[dtype][:1] if quick else NATIVE_TEXT[dtype]):
         for l, f in TEXT_DISGUISES:
             v = f(t)
             if type(v) is str and v == t:
@@ -741,145 +768,218 @@ def nm_source(stype, x, first=None):
     """A Property of dtype stype (None: inferred) that holds x (after `first`); None when it cannot be built
     or is not a conforming Property (then it is not a start state)."""
     vals = [copy.deepcopy(x)] if first is None else [first, copy.deepcopy(x)]
-    st, src = h.call(odml.Property, name='p', dtype=stype, values=vals)
+    st, src = _try(odml.Property, name='p', dtype=stype, values=vals)
     if st == 'exc' or inv_values(src) or len(src._values) != len(vals):
         return None
     return src
 
 
-def nm_cases(D, x, quick):
+def nm_cases(D, x, scope):
     """All ways a value x reaches a Property of dtype D ('none': no dtype yet).
-    Yields (entry, strict, form, text, build, act): build() -> pre-state tuple or None, act(*pre-state)."""
+    scope 'full': every combination below; 'quick': a subset that still has every entry point, both strict
+    settings and every argument form; 'core': one case per entry point.
+    Yields (entry, strict, form, text, build, act, items): build() -> pre-state tuple (None: constructor),
+    act(*pre-state); items = number of items of a list-like argument (None: not list-like)."""
     cp = copy.deepcopy
     d = DTYPE[D]
     nat = NATIVE[D][0] if D != 'none' else None
-    forms = [('single', lambda: cp(x), '%r'), ('list', lambda: [cp(x)], '[%r]')]
+    # (label, builder, witness pattern, number of list items)
+    forms = [('single', lambda: cp(x), '%r', None), ('list', lambda: [cp(x)], '[%r]', 1)]
     if D == 'none':
-        forms.append(('twice', lambda: [cp(x), cp(x)], '[%r, %r]'))
+        forms.append(('twice', lambda: [cp(x), cp(x)], '[%r, %r]', 2))
     else:
-        forms.append(('after-native', lambda: [nat, cp(x)], '[' + repr(nat) + ', %r]'))
-        forms.append(('before-native', lambda: [cp(x), nat], '[%r, ' + repr(nat) + ']'))
+        forms.append(('after-native', lambda: [nat, cp(x)], '[' + repr(nat) + ', %r]', 2))
+        forms.append(('before-native', lambda: [cp(x), nat], '[%r, ' + repr(nat) + ']', 2))
         forms.append(('generator-after-native', lambda: (v for v in [nat, cp(x)]),
-                      '(v for v in [' + repr(nat) + ', %r])'))
-        if not quick:
-            forms.append(('tuple-after-native', lambda: (nat, cp(x)), '(' + repr(nat) + ', %r)'))
+                      '(v for v in [' + repr(nat) + ', %r])', 2))
+        forms.append(('tuple-after-native', lambda: (nat, cp(x)), '(' + repr(nat) + ', %r)', 2))
         ntext = NATIVE_TEXT.get(D, [','])[0]
         if type(x) is str and ',' not in ntext and not set(x) & set('[],'):
             forms.append(('bracketed-text-after-native', lambda: '[%s, %s]' % (ntext, x),
-                          repr('[%s, ' % ntext) + ' + %r + "]"'))
+                          repr('[%s, ' % ntext) + ' + %r + "]"', None))
     short = forms[:2]
+    second = 'twice' if D == 'none' else 'after-native'
     sizes = (0, 1, 2) if D != 'none' else (0,)
+    core_n = 1 if D != 'none' else 0
 
     def start(n):
-        return lambda: (build_start((D, n)),)
+        return lambda: (build_start_raw((D, n)),)
 
     def stext(n):
         return 'p = odml.Property(name="p", dtype=%r, values=%r)' % (d, (NATIVE[D][:n] if n else None))
 
     def fmt(pattern):
-        return pattern.replace('%r', '{x}').format(x=repr(x)[:120])
+        return pattern.replace('%r', repr(x)[:120].replace('%', '%%')) % ()
+
+    def want(entry, n=None, form=None, strict=None, idx=None, first_source=True, member=False):
+        if scope == 'full':
+            return True
+        if scope == 'core':
+            if entry == 'constructor':
+                return form == 'single' and not member
+            if entry in ('values=', 'extend'):
+                return n == core_n and form == second and strict in (None, False)
+            if entry == 'setitem':
+                return n == 1 and idx == 0 and form == 'single'
+            if entry == 'append':
+                return n == core_n and form == 'single'
+            if entry == 'insert':
+                return n == core_n and form == 'single' and idx == 0 and strict is False
+            if entry in ('dtype=', 'merge'):
+                return first_source and n in (None, 1) and strict in (None, False)
+            return False
+        # quick
+        if entry == 'constructor':
+            return not member or form == 'single'
+        if entry in ('constructor(value=)', 'value='):
+            return form == 'single' and n in (None, core_n)
+        if entry == 'values=':
+            return n in (0, 1)
+        if entry in ('setitem', 'setitem-at-end'):
+            return (n == 1 and (idx == 0 or form == 'single')) or (n == 2 and idx == 1 and form == 'single')
+        if entry == 'append':
+            return (n in (0, 1) and form == 'single') or (n == 1 and strict is False)
+        if entry == 'insert':
+            return n == core_n and form == 'single'
+        if entry == 'extend':
+            return n == core_n or (n == 0 and form in ('single', second) and strict is False)
+        if entry == 'dtype=':
+            return True
+        if entry == 'merge':
+            return n == 1 or (n == 0 and first_source and strict is False)
+        if entry == 'extend-property':
+            return n == 1
+        return False
 
     # constructor (dtype as name, as DType member, deprecated value= keyword)
     spellings = [('', d)]
     if D in CANON:
         spellings.append(('DType.', getattr(odml.DType, D)))
-    for fl, fb, ft in forms:
+    for fl, fb, ft, k in forms:
         for sl, sd in spellings:
-            if sl and fl not in ('single', 'after-native'):
+            if sl and fl not in ('single', second) or not want('constructor', form=fl, member=bool(sl)):
                 continue
             yield ('constructor', None, fl, 'odml.Property(name="p", dtype=%r, values=%s)' % (sd, fmt(ft)), None,
-                   (lambda fb=fb, sd=sd: odml.Property(name='p', dtype=sd, values=fb())))
-    for fl, fb, ft in short:
-        yield ('constructor(value=)', None, fl, 'odml.Property(name="p", dtype=%r, value=%s)' % (d, fmt(ft)), None,
-               (lambda fb=fb: odml.Property(name='p', dtype=d, value=fb())))
+                   (lambda fb=fb, sd=sd: odml.Property(name='p', dtype=sd, values=fb())), k)
+    for fl, fb, ft, k in short:
+        if want('constructor(value=)', form=fl):
+            yield ('constructor(value=)', None, fl, 'odml.Property(name="p", dtype=%r, value=%s)' % (d, fmt(ft)), None,
+                   (lambda fb=fb: odml.Property(name='p', dtype=d, value=fb())), k)
     for n in sizes:
-        if quick and n == 2:
-            continue
-        for fl, fb, ft in forms:
-            yield ('values=', None, fl, '%s; p.values = %s' % (stext(n), fmt(ft)), start(n),
-                   (lambda p, fb=fb: setattr(p, 'values', fb())))
-        for fl, fb, ft in short:
-            yield ('value=', None, fl, '%s; p.value = %s' % (stext(n), fmt(ft)), start(n),
-                   (lambda p, fb=fb: setattr(p, 'value', fb())))
+        for fl, fb, ft, k in forms:
+            if want('values=', n=n, form=fl):
+                yield ('values=', None, fl, '%s; p.values = %s' % (stext(n), fmt(ft)), start(n),
+                       (lambda p, fb=fb: setattr(p, 'values', fb())), k)
+        for fl, fb, ft, k in short:
+            if want('value=', n=n, form=fl):
+                yield ('value=', None, fl, '%s; p.value = %s' % (stext(n), fmt(ft)), start(n),
+                       (lambda p, fb=fb: setattr(p, 'value', fb())), k)
     for n in sizes:
-        if n == 0:
-            continue
         for idx in (0, 1):
-            if quick and (n, idx) == (2, 0):
+            if n == 0:
                 continue
-            for fl, fb, ft in short:
-                yield ('setitem' if idx < n else 'setitem-at-end', None, fl,
-                       '%s; p[%d] = %s' % (stext(n), idx, fmt(ft)), start(n),
-                       (lambda p, fb=fb, idx=idx: p.__setitem__(idx, fb())))
+            for fl, fb, ft, k in short:
+                entry = 'setitem' if idx < n else 'setitem-at-end'
+                if want(entry, n=n, form=fl, idx=idx):
+                    yield (entry, None, fl, '%s; p[%d] = %s' % (stext(n), idx, fmt(ft)), start(n),
+                           (lambda p, fb=fb, idx=idx: p.__setitem__(idx, fb())), None)
     for n in sizes:
         for strict in (True, False):
-            for fl, fb, ft in short:
-                yield ('append', strict, fl, '%s; p.append(%s, strict=%s)' % (stext(n), fmt(ft), strict), start(n),
-                       (lambda p, fb=fb, strict=strict: p.append(fb(), strict=strict)))
+            for fl, fb, ft, k in short:
+                if want('append', n=n, form=fl, strict=strict):
+                    yield ('append', strict, fl, '%s; p.append(%s, strict=%s)' % (stext(n), fmt(ft), strict), start(n),
+                           (lambda p, fb=fb, strict=strict: p.append(fb(), strict=strict)), k)
                 for idx in (0, 5):
-                    if quick and (n == 2 or idx == 5 and n == 0):
-                        continue
-                    yield ('insert', strict, fl, '%s; p.insert(%d, %s, strict=%s)' % (stext(n), idx, fmt(ft), strict),
-                           start(n), (lambda p, fb=fb, strict=strict, idx=idx: p.insert(idx, fb(), strict=strict)))
-            for fl, fb, ft in forms:
-                if quick and n == 2 and fl not in ('single', 'after-native'):
-                    continue
-                yield ('extend', strict, fl, '%s; p.extend(%s, strict=%s)' % (stext(n), fmt(ft), strict), start(n),
-                       (lambda p, fb=fb, strict=strict: p.extend(fb(), strict=strict)))
+                    if want('insert', n=n, form=fl, strict=strict, idx=idx):
+                        yield ('insert', strict, fl,
+                               '%s; p.insert(%d, %s, strict=%s)' % (stext(n), idx, fmt(ft), strict), start(n),
+                               (lambda p, fb=fb, strict=strict, idx=idx: p.insert(idx, fb(), strict=strict)), k)
+            for fl, fb, ft, k in forms:
+                if want('extend', n=n, form=fl, strict=strict):
+                    yield ('extend', strict, fl, '%s; p.extend(%s, strict=%s)' % (stext(n), fmt(ft), strict), start(n),
+                           (lambda p, fb=fb, strict=strict: p.extend(fb(), strict=strict)), k)
     if D == 'none':
         return
     # a Property of another dtype that holds x: re-typed to D, merged into / appended to a D Property
     sources = []
-    for stype in (None, 'string', 'text'):
+    for stype in ('string', None, 'text'):
         if stype is not None and not isinstance(x, str):
             continue
         sources.append((stype, None))
         if stype == 'string' and D in NATIVE_TEXT and '\n' not in NATIVE_TEXT[D][0]:
             sources.append((stype, NATIVE_TEXT[D][0]))
+    first_source = True
     for stype, first in sources:
+        if scope == 'core' and not first_source:
+            break
         if nm_source(stype, x, first) is None:
             continue
         stxt = 's = odml.Property(name="p", dtype=%r, values=%r)' % (stype, ([first] if first else []) + [x])
         fl = 'property-%s%s' % (stype or 'inferred', '-after-native' if first else '')
-        yield ('dtype=', None, fl, '%s; s.dtype = %r' % (stxt, d),
-               (lambda stype=stype, first=first: (nm_source(stype, x, first),)),
-               (lambda s: setattr(s, 'dtype', d)))
+        if want('dtype=', first_source=first_source):
+            yield ('dtype=', None, fl, '%s; s.dtype = %r' % (stxt, d),
+                   (lambda stype=stype, first=first: (nm_source(stype, x, first),)),
+                   (lambda s: setattr(s, 'dtype', d)), None)
         for n in sizes:
-            if quick and n == 2:
-                continue
             for strict in (True, False):
-                yield ('merge', strict, fl, '%s; %s; p.merge(s, strict=%s)' % (stext(n), stxt, strict),
-                       (lambda stype=stype, first=first, n=n: (build_start((D, n)), nm_source(stype, x, first))),
-                       (lambda p, s, strict=strict: p.merge(s, strict=strict)))
-            yield ('extend-property', None, fl, '%s; %s; p.extend(s)' % (stext(n), stxt),
-                   (lambda stype=stype, first=first, n=n: (build_start((D, n)), nm_source(stype, x, first))),
-                   (lambda p, s: p.extend(s)))
+                if want('merge', n=n, strict=strict, first_source=first_source):
+                    yield ('merge', strict, fl, '%s; %s; p.merge(s, strict=%s)' % (stext(n), stxt, strict),
+                           (lambda stype=stype, first=first, n=n: (build_start_raw((D, n)), nm_source(stype, x, first))),
+                           (lambda p, s, strict=strict: p.merge(s, strict=strict)), None)
+            if want('extend-property', n=n, first_source=first_source):
+                yield ('extend-property', None, fl, '%s; %s; p.extend(s)' % (stext(n), stxt),
+                       (lambda stype=stype, first=first, n=n: (build_start_raw((D, n)), nm_source(stype, x, first))),
+                       (lambda p, s: p.extend(s)), None)
+        first_source = False
 
 
 VALUE_ENTRIES = ('constructor', 'constructor(value=)', 'values=', 'value=', 'setitem', 'append', 'insert', 'extend',
                  'merge', 'extend-property', 'dtype=')
+ADDING = ('append', 'insert', 'extend')
 
 
-def nm_evaluate(D, case):
+def plain_item(x):
+    """x is one non-empty item: a text with visible content or a scalar object (for containers and empty
+    input the statement does not say how many values they stand for)."""
+    if isinstance(x, str):
+        return bool(x.strip())
+    return x is not None and not isinstance(x, (list, tuple, dict, set, frozenset, bytes, bytearray))
+
+
+def dropped_items(x, items, stored_before, stored_after, adding):
+    """Statement: input that cannot be converted is refused with ValueError. A list-like argument of k plain
+    items that is accepted while fewer than k values arrive was neither converted nor refused."""
+    if items is None or not plain_item(x):
+        return None
+    arrived = stored_after - stored_before if adding else stored_after
+    if arrived < items:
+        return '%d items given, %d values stored, no ValueError' % (items, arrived)
+    return None
+
+
+def nm_evaluate(D, x, case):
     """Contract check of one near-miss case. Returns (violations, outcome)."""
-    entry, strict, form, text, build, act = case
+    entry, strict, form, text, build, act, items = case
     vio = []
     if build is None:
-        st, p = h.call(act)
+        st, p = _try(act)
         if st == 'exc':
             if not isinstance(p, ValueError):
                 vio.append(('refusal-is-ValueError', 'constructor raised %s: %s' % (type(p).__name__, str(p)[:80])))
             return vio, st
         vio = inv_values(p)
         if not vio:
-            vio = check_normal_form(p)
+            dr = dropped_items(x, items, 0, len(p._values), False)
+            if dr:
+                vio.append(('every-input-item-stored-or-refused', dr + '; stored %r' % (p._values,)))
+            vio += check_normal_form_raw(p)
         return vio, st
     pre_state = build()
     p = pre_state[0]
     assert not inv_values(p), (D, text)
     pre, pre_len, pre_full = vsnap(p), len(p._values), h.snap(p)
     src_pre = vsnap(pre_state[1]) if len(pre_state) > 1 else None
-    st, exc = h.call(act, *pre_state)
+    st, exc = _try(act, *pre_state)
     problems = inv_values(p)
     vio += problems
     if len(pre_state) > 1:
@@ -896,18 +996,23 @@ def nm_evaluate(D, case):
         elif h.snap(p) != pre_full:
             vio.append(('unchanged-on-raise', 'raised %s but the property changed: %s'
                         % (type(exc).__name__, h.diff(pre_full, h.snap(p)))))
-        if not isinstance(exc, ValueError):
-            # silent about indexes: p[len(p)] = x ('setitem-at-end') may be refused as an index
-            if entry in VALUE_ENTRIES:
-                vio.append(('refusal-is-ValueError', 'raised %s: %s' % (type(exc).__name__, str(exc)[:80])))
+        # silent about indexes: p[len(p)] = x ('setitem-at-end') may be refused as an index
+        if not isinstance(exc, ValueError) and entry in VALUE_ENTRIES:
+            vio.append(('refusal-is-ValueError', 'raised %s: %s' % (type(exc).__name__, str(exc)[:80])))
     if entry == 'dtype=' and not problems:
         now = vsnap(p)
+        # no value may get lost; one text that lists several tuples ('[(1;2), (3;4)]') may become several values
         converted = canon_dtype(p._dtype) is not None and canon_dtype(p._dtype) == canon_dtype(DTYPE[D]) \
-            and len(p._values) == pre_len
+            and len(p._values) >= pre_len
         if now != pre and not converted:
             vio.append(('dtype-change-all-or-nothing', 'dtype=%r on %r gave %r' % (DTYPE[D], pre, now)))
     if not problems:
-        vio += check_normal_form(p)
+        if st == 'ret' and entry in ('values=', 'value=') + ADDING:
+            dr = dropped_items(x, items, pre_len, len(p._values), entry in ADDING and pre_len > 0)
+            if dr:
+                vio.append(('every-input-item-stored-or-refused', dr + '; values went from %r to %r'
+                            % (pre[0], vsnap(p)[0])))
+        vio += check_normal_form_raw(p)
     return vio, st
 
 
@@ -915,12 +1020,12 @@ def near_miss_phase(col, agg, name, tier, seed):
     """Phase (3) of run_values. Returns the number of (dtype, value) pairs."""
     quick = tier == 'quick'
     pairs = 0
-    own = dict((D, near_pool(D)) for D in NM_DTYPES)
+    own = dict((D, near_pool(D, quick)) for D in NM_DTYPES)
     for D in NM_DTYPES + ['none']:
-        todo = list(own[D]) if D != 'none' else []
-        seen = set(_ident(v) for _, v in todo)
-        # values of the other pools: all of them in the thorough tier; in the quick tier the near misses
-        # proper of the other families (not the disguises), each once
+        todo = [(label, v, 'quick' if quick else 'full') for label, v in own[D]] if D != 'none' else []
+        seen = set(_ident(v) for _, v, _ in todo)
+        # the pools of the other dtypes, each value once: in the quick tier the near misses proper (not the
+        # disguises) with one case per entry point, in the thorough tier everything with the quick scope
         for E in NM_DTYPES:
             if E == D or (E in STR_TYPES and E != 'string') or (E == '3-tuple' and D != 'none'):
                 continue
@@ -930,14 +1035,12 @@ def near_miss_phase(col, agg, name, tier, seed):
                 if _ident(v) in seen:
                     continue
                 seen.add(_ident(v))
-                todo.append((label, v))
-        for label, x in todo:
+                todo.append((label, v, 'core' if quick else 'quick'))
+        for label, x, scope in todo:
             pairs += 1
-            foreign = not label.startswith(('string:' if D in STR_TYPES else 'n-tuple:' if D.endswith('-tuple')
-                                            else D + ':'))
-            for case in nm_cases(D, x, quick or foreign):
-                entry, strict, form, text = case[:4]
-                vio, outcome = nm_evaluate(D, case)
+            with h.quiet():
+                results = [(case[:4], nm_evaluate(D, x, case)) for case in nm_cases(D, x, scope)]
+            for (entry, strict, form, text), (vio, outcome) in results:
                 col.case(cls_key=('near-miss', entry, strict, form, D, label, outcome),
                          sample=text if col.evaluations % 997 == 0 else None)
                 if not vio:
